@@ -515,7 +515,21 @@ def _content(ctx, em):
            pn, construct='placement node')
 
 
+def _owner_package(ctx):
+    """Thorough tier: over the whole package the manifest cache directory is
+    written only by the event manager."""
+    K.owner_clause(
+        ctx, 'C12.2', 'cache_dir',
+        {(EM, 'EventMgr'): None,
+         # named exception: the configuration manager drops the entry of an
+         # instance whose configuration failed (reported as aborted)
+         (ACM, 'AppCfgMgr'): {'fs.rm_safe'}},
+        "the node's manifest cache", minimum=2)
+
+
 def check(ctx):
+    if ctx.tier == 'thorough':
+        _owner_package(ctx)
     em = _sync(ctx)
     _owner(ctx)
     _write_safe(ctx)
@@ -528,6 +542,7 @@ _F = 'lib/python/treadmill/fs/__init__.py'
 _A = 'lib/python/treadmill/appcfgmgr.py'
 
 MUTANTS = [
+    ('foreign-writer-of-the-cache-dir', [('lib/python/treadmill/cleanup.py', '        cleanup_link = os.path.join(self.tm_env.cleanup_dir, instance)\n        try:\n            container_dir = os.readlink(cleanup_link)\n', '        cleanup_link = os.path.join(self.tm_env.cleanup_dir, instance)\n        fs.rm_safe(os.path.join(self.tm_env.cache_dir, instance))\n        try:\n            container_dir = os.readlink(cleanup_link)\n')], 'C12.2', 'thorough'),
     ('unlink-expected-minus-current', [(_E, """        extra = current_set - expected_set
 """, """        extra = expected_set - current_set
 """)], 'C12.1'),
